@@ -580,7 +580,7 @@ type rig struct {
 
 type stats struct {
 	msgs, checks, rm, addpathMulti, reconnects, peerdowns, observers, twoPeersSamePrefix int
-	ownASAnnounced int // paths announced whose AS_PATH (beyond the neighbour hop) holds the monitored router's own AS
+	ownASAnnounced                                                                       int // paths announced whose AS_PATH holds the monitored router's own AS
 }
 
 func runHist(h hist, st *stats, viol func(clause string, f map[string]string, detail string)) {
@@ -610,6 +610,13 @@ func runHist(h hist, st *stats, viol func(clause string, f map[string]string, de
 			pd := h.Routers[o.R].Peers[o.Peer]
 			f["addpath"] = fmt.Sprint(pd.AddPath)
 			f["view"] = map[bool]string{false: "pre", true: "post"}[o.Post]
+			if o.K == "rm" {
+				own := false
+				for _, as := range o.Path {
+					own = own || as == h.Routers[o.R].LocalAS
+				}
+				f["own_as_in_path"] = fmt.Sprint(own)
+			}
 		}
 		return f
 	}
@@ -763,8 +770,11 @@ func runHist(h hist, st *stats, viol func(clause string, f map[string]string, de
 						delete(t, key{src, pfxString(universe[e.P], fam), e.ID})
 					}
 					for _, e := range ann {
-						if len(o.Path) > 1 && strings.Contains(" "+pathString(o.Path[1:])+" ", fmt.Sprintf(" %d ", h.Routers[o.R].LocalAS)) || (len(o.Path) > 0 && o.LP != 0 && strings.Contains(" "+a.Path+" ", fmt.Sprintf(" %d ", h.Routers[o.R].LocalAS))) {
-							st.ownASAnnounced++
+						for _, as := range o.Path {
+							if as == h.Routers[o.R].LocalAS {
+								st.ownASAnnounced++
+								break
+							}
 						}
 						a.NH = nh
 						k := key{src, pfxString(universe[e.P], fam), e.ID}
